@@ -597,7 +597,16 @@ bool relClose(long double x, long double y, long double tol = 1e-12L)
     long double m = std::max(fabsl(x), fabsl(y));
     return fabsl(x - y) <= tol * m;
 }
-std::string kinds(const Member &a, const Member &b) { return a.kind + "|" + b.kind; }
+// Signature trait of a pair / triple: the most special construction among the participants (the full kinds are in the detail).
+// Keeping one trait instead of the product of kinds keeps the number of violation classes (each is replayed twice) small.
+int kindRank(const std::string &k)
+{
+    static const char *order[] = {"via-", "imported", "standard-named-object", "parentless", "nest2", "nest1", "flat2", "flat1"};
+    for (int i = 0; i < 8; ++i) if (k.rfind(order[i], 0) == 0) return i;
+    return 8;
+}
+std::string special(const std::string &x, const std::string &y) { int a = kindRank(x), b = kindRank(y); return (a < b || (a == b && x >= y)) ? x : y; }
+std::string kinds(const Member &a, const Member &b) { return "involving:" + special(a.kind, b.kind); }
 
 // judges one ordered pair of fully defined members against the reference; returns the implementation's factor
 struct PairRes { bool compat; double f; };
@@ -707,14 +716,14 @@ void runTriplesRow(uint64_t i, Ctx &c)
             if (!(ab && bc)) { (ab || bc) ? ++nOne : ++nNo; continue; }
             const Member &cc = g_pool[g_sub[k]];
             if (!ac) {
-                report(c, "triples:compatible:not-transitive:" + a.kind + "|" + b.kind + "|" + cc.kind,
+                report(c, std::string("triples:compatible:not-transitive:involving:") + special(special(a.kind, b.kind), cc.kind),
                        {{"a", memberJson(a)}, {"b", memberJson(b)}, {"c", memberJson(cc)}});
                 ++nBad;
                 continue;
             }
             long double prod = (long double)row[j].f * (long double)g_matrix[j][k].f;
             if (!relClose(prod, (long double)row[k].f)) {
-                report(c, "triples:factor:not-multiplicative:" + a.kind + "|" + b.kind + "|" + cc.kind,
+                report(c, std::string("triples:factor:not-multiplicative:involving:") + special(special(a.kind, b.kind), cc.kind),
                        {{"a", memberJson(a)}, {"b", memberJson(b)}, {"c", memberJson(cc)}, {"f_ab", dbl(row[j].f)}, {"f_bc", dbl(g_matrix[j][k].f)}, {"f_ac", dbl(row[k].f)}});
             }
             (a.inDomain && b.inDomain && cc.inDomain) ? ++nDom : ++nOut;
@@ -856,7 +865,7 @@ Built buildModel(Ctx &c, const Member &a, const Member &b)
 std::string validatorKind(const Member &a, const Member &b)
 { // coarse situation of the pair for signatures
     auto k = [](const Member &m) { return m.kind.substr(0, m.kind.find_first_of("(")); };
-    return k(a) + "|" + k(b);
+    return "involving:" + special(k(a), k(b));
 }
 void runValidatorRow(uint64_t i, Ctx &c)
 {
